@@ -112,7 +112,7 @@ class Mask:
         if fc is None:
             fc = self._fc = {}
         hit = fc.get(v.get_id())
-        if hit is not None and hit[0].eq(v):
+        if hit is not None:
             return hit[1]
         r = self._formula(v)
         if len(fc) > 2000:
